@@ -131,3 +131,56 @@ def through_index(recs: list) -> list:
     # the parser's prediction caches are cold in a fresh process: fill them here so that forked workers inherit them
     head = [_one(r) for r in el[:3]]
     return head + par.pmap(_one, el[3:])
+
+
+# ------------------------------------------------------------------ refresh of saved-query pages (FileOps!ZoqRefresh)
+def _zoq_chunk(cases: list) -> list:
+    import datetime as dt
+    from zorg.service import swog
+    zenv.set_day("2024-06-01")
+    env = zenv.ZEnv()
+    out = []
+    try:
+        env.write("p.zo", "# P\n\n- 240101#00 first +t\no P1 240101#01 second\n  * bullet\n")
+        r = env.db_create()
+        if not r.ok:
+            return [{"case": None, "problem": f"setup: {r!r}"}]
+        db_url = "sqlite:///" + str(env.db_path)
+        results = "- 240101#00 first +t\no P1 240101#01 second\n  * bullet"
+        stats = "# SAVED QUERY GENERATED ON " + dt.datetime.now().strftime("%Y-%m-%d AT %H:%M:%S") + "."
+        for i, c in cases:
+            text = "\n".join(l["txt"] for l in c["file"]) + ("\n" if i % 2 == 0 else "")
+            env.write("q.zoq", text)
+
+            def refresh():
+                zenv.reset_process_state()
+                try:
+                    swog.refresh_zoq_file(env.zdir, db_url, env.path("q.zoq"))
+                finally:
+                    zenv.reset_process_state()
+                return env.read("q.zoq")
+
+            def want(lines):
+                return "\n".join(l["txt"] for l in lines).replace("<STATS>", stats).replace("<RESULTS>", results)
+            try:
+                z1 = refresh()
+                z2 = refresh()
+            except Exception as e:  # noqa: BLE001
+                out.append({"case": c, "text": text, "problem": f"refresh raised {e!r}"})
+                continue
+            prob = None
+            if z1.rstrip("\n") != want(c["once"]) or len(z1) - len(z1.rstrip("\n")) > 1:
+                prob = ("once", z1, want(c["once"]))
+            elif z2.rstrip("\n") != want(c["twice"]) or len(z2) - len(z2.rstrip("\n")) > 1:
+                prob = ("twice", z2, want(c["twice"]))
+            out.append({"case": c, "text": text, "problem": prob})
+    finally:
+        env.cleanup()
+    return out
+
+
+def zoq_refresh(cases: list) -> list:
+    idx = list(enumerate(cases))
+    n = max(1, len(idx) // (par.NPROC * 2))
+    chunks = [idx[i:i + n] for i in range(0, len(idx), n)]
+    return [r for part in par.pmap(_zoq_chunk, chunks, chunk=1) for r in part]
